@@ -1,0 +1,10 @@
+//go:build verif
+
+package revocation
+
+import "github.com/privacybydesign/gabi/big"
+
+// VerifSentinels: package-level integer constants and the values they must keep (see internal/common).
+func VerifSentinels() map[string][2]*big.Int {
+	return map[string][2]*big.Int{"revocation.bigOne": {bigOne, big.NewInt(1)}}
+}
